@@ -14,8 +14,9 @@ RES_TOL = 1e-9
 class Probe:
     """Intercepts scipy.sparse.linalg.bicgstab from the harness side."""
 
-    def __init__(self, fail_at=None, fail_info=1):
+    def __init__(self, fail_at=None, fail_info=1, fail_every=None):
         self.fail_info = fail_info
+        self.fail_every = fail_every
         import scipy.sparse.linalg as sla
         self.sla = sla
         self.orig = sla.bicgstab
@@ -26,7 +27,7 @@ class Probe:
         def wrapped(A, b, *a, **kw):
             x, info = self.orig(A, b, *a, **kw)
             self.calls.append(dict(rtol=kw.get("rtol", kw.get("tol", 1e-5)), atol=kw.get("atol", 0.0), info=int(info)))
-            if self.fail_at is not None and len(self.calls) - 1 == self.fail_at:
+            if (self.fail_at is not None and len(self.calls) - 1 == self.fail_at) or (self.fail_every and len(self.calls) % self.fail_every == 0):
                 # did not converge (info > 0: iteration limit) or broke down (info < 0): perturbed iterate, flagged
                 return x * (1 + 1e-3), self.fail_info
             return x, info
